@@ -25,6 +25,17 @@ def gen(rng):
             params = [(J.T(rng.choice(["String", "Long", "Order", "User", "Money"])), "p%d" % j) for j in range(nparams)]
             ret = rng.choice([None, J.T("String"), J.T(rng.choice(names)), J.T("Order")])
             members.append(J.Method(mn, ret, params, [], ["public"]))
+        if name.endswith("Service") and rng.random() < 0.5:
+            # five methods over the same four parameters; four of them add a fifth, four add a sixth, three both:
+            # two different largest frequent parameter sets of the same size (support 80% each)
+            base = [(J.T("String"), "firstname"), (J.T("String"), "lastname"), (J.T("int"), "age"), (J.T("String"), "address")]
+            extra = [["email", "phone"], ["email", "phone"], ["email", "phone"], ["email"], ["phone"]]
+            rng.shuffle(extra)
+            members = []
+            for j, ex in enumerate(extra):
+                ps = base + [(J.T("String"), e) for e in ex]
+                rng.shuffle(ps)
+                members.append(J.Method("register%d" % j, None, ps, [], ["public"]))
         u = J.Unit("com/svc/" + name + ".java", "com.svc", [], "class", name, members)
         J.render(u, rng, "std")
         units.append(u)
